@@ -123,7 +123,14 @@ pub fn gen_atomic(m: &Material, rng: &mut Rng, k: &mut Knobs) -> Value {
       1 => json!({"nthChild": rng.pick(&["2n+1", "n", "-n+2", "2n", "n+2", "-2n+5", "0n+1"])}),
       2 => json!({"nthChild": {"position": 1 + rng.below(2), "reverse": true}}),
       _ => {
-        let of = if !m.kinds.is_empty() { json!({"kind": rng.pick(&m.kinds)}) } else { json!({"regex": "a"}) };
+        let of = if rng.chance(1, 2) && !m.snippets.is_empty() {
+          let sn = rng.pick(&m.snippets).clone();
+          if rng.chance(1, 2) { json!({"pattern": holed(&sn, rng, k)}) } else { json!({"pattern": format!("${}", if k.share_vars { "A".to_string() } else { k.var_counter += 1; format!("V{}", k.var_counter) })}) }
+        } else if !m.kinds.is_empty() {
+          json!({"kind": rng.pick(&m.kinds)})
+        } else {
+          json!({"regex": "a"})
+        };
         json!({"nthChild": {"position": rng.pick(&["1", "2", "n", "2n+1"]), "ofRule": of, "reverse": rng.chance(1, 3)}})
       }
     },
